@@ -281,8 +281,64 @@ def fileOp (args : List String) : Option String :=
         (s!"{o} {names} " ++ fList (fun p => fPriorEval p z10 z90 us zs xs) c.1.compiledPriors) :: go c.1 rest
     pure (s!"{code} " ++ fList id (go r.1 phases))) args
 
+/-! ### the scripting route: the optimizer's own setters in any order, `compile_params`, `update_model` -/
+
+open Taurex.OptimizerSM in
+/-- one call of the history: 0 `enable_fit n` 1 `disable_fit n` 2 `set_mode n text` 3 `set_boundary n (a, b)`
+    4 `set_factor_boundary n (a, b)` 5 `set_prior n <constructor call as in c08.prior>` 8 `compile_params()`
+    9 `update_model v` -/
+def sessOpP : P (OptimizerSM.Op String Float) := do
+  let k ← nat
+  match k with
+  | 0 => do let n ← str; pure (.enableFit n)
+  | 1 => do let n ← str; pure (.disableFit n)
+  | 2 => do let n ← str; let m ← str; pure (.setMode n m)
+  | 3 => do let n ← str; let a ← flt; let b ← flt; pure (.setBoundary n a b)
+  | 4 => do let n ← str; let a ← flt; let b ← flt; pure (.setFactorBoundary n a b)
+  | 5 => do
+    let n ← str
+    let p ← ctorP
+    match p with
+    | some pr => pure (.setPrior n pr)
+    | none => failure
+  | 8 => pure .compile
+  | 9 => do let v ← listOf flt; pure (.updateModel v)
+  | _ => failure
+
+open Taurex.OptimizerSM in
+/-- `c08.session z10 z90 model obs ops us zs xs`: a fresh optimizer over a model and an observation with the declared
+    parameters (name mode fit b0 b1 value), then the calls of `ops` one after the other (`OptimizerSM.step`) → per call its
+    outcome (0 ok / 1 KeyError / 2 ValueError) and: after `compile_params` `1`, the reported names and the evaluation of every
+    compiled prior as in `c08.prior`; after `update_model` `2` and the value of every parameter (model's, then the
+    observation's, in table order); otherwise `0` -/
+def sessionOp (args : List String) : Option String :=
+  run (do
+    let z10 ← flt
+    let z90 ← flt
+    let model ← listOf paramP
+    let obs ← listOf paramP
+    let ops ← listOf sessOpP
+    let us ← listOf flt
+    let zs ← listOf flt
+    let xs ← listOf flt
+    let rec go (s : St String Float) : List (OptimizerSM.Op String Float) → List String
+      | [] => []
+      | op :: rest =>
+        let c := step s op
+        let o : Nat := match c.2 with | .ok => 0 | .keyError => 1 | .valueError => 2
+        let payload : String := match op with
+          | .compile =>
+            let names := match fitNames c.1 with
+              | some ns => fList (fun (x : Bool × String) => esc (if x.1 then "log_" ++ x.2 else x.2)) ns
+              | none => "0"
+            s!"1 {names} " ++ fList (fun p => fPriorEval p z10 z90 us zs xs) c.1.compiledPriors
+          | .updateModel _ => "2 " ++ fList (fun (p : Param String Float) => fF p.value) (c.1.model ++ c.1.obs)
+          | _ => "0"
+        s!"{o} {payload}" :: go c.1 rest
+    pure (fList id (go (initSt model obs [] []) ops))) args
+
 def ops : List Op :=
   [("c08.prior", priorOp), ("c08.parse", parseOp), ("c08.print", printOp), ("c08.create", createOp),
-   ("c08.declared", declaredOp), ("c08.objects", objectsOp), ("c08.file", fileOp)]
+   ("c08.declared", declaredOp), ("c08.objects", objectsOp), ("c08.file", fileOp), ("c08.session", sessionOp)]
 
 end Taurex.Ops.C08
